@@ -9,6 +9,7 @@ from typing import List, Optional, Set
 from rules import fwd as R_fwd
 from sa.astutil import call_name, guards_of, kwarg, parent_map, u
 from sa.defuse import ReachingDefs
+from sa.inline import Inliner
 from sa.model import AnalysisError, FuncInfo, own_calls, own_nodes
 from sa.resolve import bind_args
 from .c11 import UnitError, unit_of
@@ -352,6 +353,7 @@ def run(ctx: Ctx):
     _inferred_length_nonnegative(ctx)
     _segments_and_list_lines(ctx)
     _token_tables_and_segments(ctx)
+    _optional_parts_disabled_by_their_own_test(ctx)
     plumbing(ctx, "S1")
     return dict(
         explanation=(
@@ -535,6 +537,46 @@ def _inferred_length_nonnegative(ctx: Ctx):
            f"-frame_shift and an interval ending before it starts, which textgrids-to-torch-token-data-dir cannot read back",
            rel, n.lineno)
 
+
+
+def _optional_parts_disabled_by_their_own_test(ctx: Ctx):
+    """S9: a command that treats parts of a data directory as optional (`ali/`, `ref/`) switches a part off by setting its option to
+    None under a test of THAT part (does its directory exist). Switching off part A under the test of part B drops A's files from the
+    output although they exist (and keeps B, which does not): the selected utterances are no longer carried over with all their
+    files. Decided per assignment `options.A = None`: the options named in its innermost test that are themselves switched off
+    somewhere in the function must include A."""
+    col, pkg = ctx.col, ctx.pkg
+    rel = pkg.module(MOD).relname
+    n_sites = 0
+    for f in ctx.owned():
+        if f.parent is not None or f.module.relname != rel:
+            continue
+        offs = []
+        for n in own_nodes(f.node):
+            if isinstance(n, ast.Assign) and isinstance(n.value, ast.Constant) and n.value.value is None:
+                for t in n.targets:
+                    if isinstance(t, ast.Attribute) and isinstance(t.value, ast.Name):
+                        offs.append((n, t.value.id, t.attr))
+        if not offs:
+            continue
+        switchable = {(o, a) for _, o, a in offs}
+        pm = parent_map(f.node)
+        inl = Inliner(f.node, keep=tuple({o for _, o, _ in offs}))  # (named tests are looked through; the options object is not)
+        for n, o, a in offs:
+            g = guards_of(pm, n)
+            if not g:
+                continue
+            test = inl.expand(g[-1][0])
+            named = {(x.value.id, x.attr) for x in ast.walk(test) if isinstance(x, ast.Attribute) and isinstance(x.value, ast.Name)} & switchable
+            if not named:
+                continue  # (switched off by a flag such as --only, not by a test of a part)
+            n_sites += 1
+            other = sorted(x[1] for x in named)
+            col.ob("G17", "S9", f"{rel}::{f.qualname}::{o}.{a}-switched-off-by-its-own-test", (o, a) in named,
+                   f"`{u(n)}` runs under the test `{u(g[-1][0])[:80]}`, which is about {other} and not about `{a}`: the part is dropped from the "
+                   f"output whenever another part is missing (its files exist and are silently not carried over), while the missing part stays "
+                   f"switched on", rel, n.lineno, sample=dict(assigned=a, tested=other))
+    col.floor("optional_part_switches", n_sites, 2)
 
 
 def _token_tables_and_segments(ctx: Ctx):
